@@ -55,6 +55,13 @@ def use_repo():
     resource.setrlimit(resource.RLIMIT_AS, (limit, hard))
   except (ValueError, OSError):
     pass
+  try:
+    # hundreds of parked threads per case: keep glibc from reserving an arena (64 MB of address
+    # space) for each of them, which would exhaust RLIMIT_AS long before any real memory is used
+    import ctypes
+    ctypes.CDLL("libc.so.6").mallopt(-8, 2)      # M_ARENA_MAX = 2
+  except Exception:
+    pass
   import miros  # noqa: F401
   got = os.path.dirname(os.path.dirname(os.path.abspath(miros.__file__)))
   if os.path.realpath(got) != os.path.realpath(REPO):
